@@ -52,13 +52,13 @@ MUTANTS = [
  ("c01-leader-int", "C01", "C01.R2", "html/layout/leader.go", "numberOfLeaders := int(line.Width.V() / textBox.Width.V())", "numberOfLeaders := int(line.Width.V()) / int(textBox.Width.V())"),
  ("c01-use-remote", "C01", "C01.R3", "svg/elements.go", "\t\tcontext.inUseIDs.Add(url)\n", ""),
  ("c01-href-delete", "C01", "C01.R3", "svg/tree.go", '\tdelete(node.attrs, "href")\n', ''),
- ("c01-var-unscoped", "C01", "C01.R3", "html/tree/style.go", "\t\tvisiting.Add(variableName)\n\t\tdefer delete(visiting, variableName)\n\t}\n", "\t}\n\tvisiting.Add(variableName)\n\tdefer delete(visiting, variableName)\n"),
+ ("c01-var-unscoped", "C01", "C01.R3", "html/tree/style.go", "\t\t\tvisiting.Add(variableName)\n\t\t\tdefer delete(visiting, variableName)\n\t\t}\n\t}\n", "\t\t}\n\t}\n\tvisiting.Add(variableName)\n\tdefer delete(visiting, variableName)\n"),
  ("c01-discarded-ok", "C01", "C01.R4", "svg/svg.go", "\t\t\t\tif child, ok := node.children[0].graphicContent.(*textSpan); ok {\n\t\t\t\t\ttextAnchor = child.textAnchor\n\t\t\t\t}", "\t\t\t\tchild, _ := node.children[0].graphicContent.(*textSpan)\n\t\t\t\ttextAnchor = child.textAnchor"),
  ("c01-unbounded-loop", "C01", "C01.R5", "html/layout/layout.go", "for loop := 0; loop < maxLoops; loop += 1 {", "for loop := 0; ; loop += 1 {"),
  ("c01-empty-marker", "C01", "C01.R7", "html/boxes/build.go", 'if markerText := cs.RenderMarker(style.GetListStyleType(), counterValue); markerText != "" {', 'if markerText := cs.RenderMarker(style.GetListStyleType(), counterValue); true {'),
  ("c07-array-index", "C07", "C07.R1", "svg/parser.go", "\t\tcopy(tr.args[:], points)\n", "\t\tfor i, p := range points {\n\t\t\ttr.args[i] = p\n\t\t}\n"),
  ("c07-len-guard", "C07", "C07.R1", "css/validation/expanders.go", "\tif len(chunks) != 2 {\n\t\treturn nil, ErrInvalidValue\n\t}\n\n\tvar (\n\t\tautoTrack = -1", "\tif len(chunks) < 2 {\n\t\treturn nil, ErrInvalidValue\n\t}\n\n\tvar (\n\t\tautoTrack = -1"),
- ("c08-var-descend", "C08", "C08.R5", "html/tree/style.go", "\t\treturn []Token{pa.NewFunctionBlock(token.Pos(), fn.Name, arguments)}\n", "\t\ttoken = pa.NewFunctionBlock(token.Pos(), fn.Name, arguments)\n\t\tif resolved := resolveVar(computed, token, visiting); len(resolved) != 0 {\n\t\t\treturn resolved\n\t\t}\n\t\treturn []Token{token}\n"),
+ ("c08-var-descend", "C08", "C08.R5", "html/tree/style.go", "\t\treturn []Token{pa.NewFunctionBlock(token.Pos(), fn.Name, arguments)}, false\n", "\t\ttoken = pa.NewFunctionBlock(token.Pos(), fn.Name, arguments)\n\t\tif resolved, _ := resolveVar(computed, token, visiting); len(resolved) != 0 {\n\t\t\treturn resolved, false\n\t\t}\n\t\treturn []Token{token}, false\n"),
  ("c09-grid-class", "C09", "C09.R3", "html/boxes/build.go", "func gridChildren(box Box, children []Box) []Box {\n\tif GridContainerT.IsInstance(box) {", "func gridChildren(box Box, children []Box) []Box {\n\tif GridT.IsInstance(box) {"),
  ("c10-margin-getter", "C10", "C10.R1", "html/layout/percentages.go", "box.MarginRight = resolveOnePercentage(box.Style.GetMarginRight(), pr.PMarginRight, cbWidth.V(), 0)", "box.MarginRight = resolveOnePercentage(box.Style.GetMarginLeft(), pr.PMarginRight, cbWidth.V(), 0)"),
  ("c10-padding-ref", "C10", "C10.R1", "html/layout/percentages.go", "box.PaddingTop = resolveOnePercentage(box.Style.GetPaddingTop(), pr.PPaddingTop, maybeHeight.V(), 0)", "box.PaddingTop = resolveOnePercentage(box.Style.GetPaddingTop(), pr.PPaddingTop, cbHeight.V(), 0)"),
@@ -129,6 +129,24 @@ MUTANTS = [
  ("c01r12-order-silent", "C01", "", "html/boxes/boxes.go", "\t\tif childStart != \"\" {\n\t\t\tstart = childStart\n\t\t}\n\t\tif childEnd != \"\" {\n\t\t\tend = childEnd\n\t\t}", "\t\tif childEnd != \"\" {\n\t\t\tend = childEnd\n\t\t}\n\t\tif childStart != \"\" {\n\t\t\tstart = childStart\n\t\t}"),
  ("c03r10-reset-silent", "C03", "", "html/tree/style.go", "\t\t\t\t\t// the error is local to this rule : the following\n\t\t\t\t\t// (nested) rules are not concerned\n\t\t\t\t\tvar err error\n", "\t\t\t\t\terr = nil // local to this rule\n"),
  ("c01r18-else-silent", "C01", "", "text/engine_pango.go", "\t\tif nextWordBoundaries != nil {\n\t\t\t// We have a word to hyphenate\n", "\t\tif hasWord := nextWordBoundaries != nil; hasWord {\n\t\t\t// We have a word to hyphenate\n"),
+ # --- session 6
+ ("c08-var-noadd", "C08", "C08.R5", "html/tree/style.go", "\t\t\tvisiting.Add(variableName)\n\t\t\tdefer delete(visiting, variableName)\n", ""),
+ ("c08-var-invalid-dropped", "C08", "C08.R16", "html/tree/style.go", "\t\t\tif invalid {\n\t\t\t\tsolvedTokens, invalidVar = rawTokens, true\n\t\t\t\tbreak\n\t\t\t}\n", "\t\t\t_ = invalid\n"),
+ ("c08-var-final-valid", "C08", "C08.R16", "html/tree/style.go", "\t\treturn computedValue, false\n\t}\n\treturn nil, true\n}\n", "\t\treturn computedValue, false\n\t}\n\treturn []Token{}, false\n}\n"),
+ ("c08-var-fallback-args", "C08", "C08.R17", "html/tree/style.go", "\t\t\tdefault_ = pa.RemoveWhitespace(fn.Arguments[i+1:])\n", "\t\t\tdefault_ = args[1:]\n\t\t\t_ = i\n"),
+ ("c20-identfuse-swap", "C20", "C20.R8", "css/parser/serialize.go", 'case "--":\n\t\treturn next == ">"', 'case "--":\n\t\treturn next == "+"'),
+ ("c20-identfuse-upper", "C20", "C20.R8", "css/parser/serialize.go", 'case "u", "U":', 'case "u":'),
+ ("c20-url-ctrl", "C20", "C20.R4", "css/parser/serialize.go", "if strings.ContainsRune(nonPrintable, c) {", "if c == 0x7f {"),
+ ("c20-backslash-ok-only", "C20", "C20.R7", "css/parser/serialize.go", '\t\t\tok = ok && strings.HasPrefix(whitespace.Value, "\\n")\n', "\t\t\t_ = whitespace\n"),
+ ("c18-circle-width", "C18", "C18.R11", "svg/elements.go", "\t\trx = dims.length(e.rx)\n", "\t\trx, _ = dims.point(e.rx, e.rx)\n"),
+ ("c18-rect-copy", "C18", "C18.R11", "svg/elements.go", "\t\trx = r.rx.Resolve(dims.fontSize, dims.innerHeight)\n", "\t\trx = r.rx.Resolve(dims.fontSize, dims.innerWidth)\n"),
+ ("c07-arity-counters", "C07", "C07.R12", "css/validation/utils.go", "\t\tif la != 3 && la != 4 {\n", "\t\tif la != 2 && la != 4 {\n"),
+ ("c01-margin-range", "C01", "C01.R22", "html/layout/pages.go", "\tfor i := 0; i < len(positionedBoxes); i++ { // note that positionedBoxes may grow over the loop\n\t\tabsoluteLayout(context, positionedBoxes[i], mBox, &positionedBoxes, 0, nil)\n", "\tfor _, absBox := range positionedBoxes {\n\t\tabsoluteLayout(context, absBox, mBox, &positionedBoxes, 0, nil)\n"),
+ ("c11-spacewidth-new", "C11", "C11.R12", "html/layout/inline.go", "\t\tspaceWidth = textBox.Width.V() - newBox.Box().Width.V()\n", "\t\tspaceWidth = newBox.Box().Width.V() - textBox.Width.V()\n"),
+ ("c10-minwidth-guard", "C10", "C10.R14", "html/layout/percentages.go", "\t\tif box.MinWidth != pr.AutoF {\n\t\t\tbox.MinWidth = pr.Max(0, box.MinWidth.V()-horizontalDelta)\n", "\t\tif box.MinWidth != pr.AutoF && box.Width != pr.AutoF {\n\t\t\tbox.MinWidth = pr.Max(0, box.MinWidth.V()-horizontalDelta)\n"),
+ # behaviour-preserving: must stay silent
+ ("silent-c10-delta-order", "C10", "", "html/layout/percentages.go", "\t\tbox.MaxWidth = pr.Max(0, box.MaxWidth.V()-horizontalDelta)\n\t\tif box.MinWidth != pr.AutoF {\n\t\t\tbox.MinWidth = pr.Max(0, box.MinWidth.V()-horizontalDelta)\n\t\t}\n", "\t\tif box.MinWidth != pr.AutoF {\n\t\t\tbox.MinWidth = pr.Max(0, box.MinWidth.V()-horizontalDelta)\n\t\t}\n\t\tbox.MaxWidth = pr.Max(0, box.MaxWidth.V()-horizontalDelta)\n"),
+ ("silent-c20-backslash-byte", "C20", "", "css/parser/serialize.go", '\t\t\tok = ok && strings.HasPrefix(whitespace.Value, "\\n")\n', '\t\t\tok = ok && len(whitespace.Value) > 0 && whitespace.Value[0] == \'\\n\'\n'),
 ]
 
 def main():
